@@ -3,6 +3,8 @@ package main
 import (
 	"fmt"
 	"go/ast"
+	"go/printer"
+	"go/token"
 	"go/types"
 	"sort"
 	"strings"
@@ -54,4 +56,85 @@ func init() {
 			fmt.Println(l)
 		}
 	}
+}
+
+// explore dupes: contradiction-style cross-references on the syntax: (1) two adjacent statements with identical text
+// that contain a call (copy-paste where one operand should have changed), (2) binary expressions with identical
+// operands, (3) if/else with identical branches, (4) switch/if-else chains testing the same condition twice.
+func init() {
+	exploreExtra["dupes"] = func(p *Prog) {
+		var lines []string
+		add := func(pos token.Pos, kind, text string) {
+			lines = append(lines, fmt.Sprintf("%s\t%s\t%s", p.Pos(pos), kind, short(text, 160)))
+		}
+		for _, pk := range p.ModulePkgs() {
+			for _, f := range pk.Syntax {
+				fn := p.Fset.Position(f.Pos()).Filename
+				if strings.HasSuffix(fn, "_test.go") || strings.Contains(fn, ".pb.") || strings.Contains(fn, "/gen/") {
+					continue
+				}
+				ast.Inspect(f, func(n ast.Node) bool {
+					switch x := n.(type) {
+					case *ast.BlockStmt:
+						for i := 0; i+1 < len(x.List); i++ {
+							a, b := printNode(p, x.List[i]), printNode(p, x.List[i+1])
+							if a == b && strings.Contains(a, "(") && len(a) > 30 {
+								if _, isExpr := x.List[i].(*ast.ExprStmt); isExpr {
+									continue // repeated effect calls (Write, append-free) are common and fine
+								}
+								add(x.List[i+1].Pos(), "adjacent-duplicate", a)
+							}
+						}
+					case *ast.BinaryExpr:
+						switch x.Op {
+						case token.EQL, token.NEQ, token.LAND, token.LOR, token.LSS, token.GTR, token.LEQ, token.GEQ, token.SUB:
+							if a := printNode(p, x.X); a == printNode(p, x.Y) && !strings.Contains(a, "(") {
+								add(x.Pos(), "identical-operands", printNode(p, x))
+							}
+						}
+					case *ast.IfStmt:
+						if el, ok := x.Else.(*ast.BlockStmt); ok && printNode(p, x.Body) == printNode(p, el) {
+							add(x.Pos(), "identical-branches", printNode(p, x.Cond))
+						}
+						// else-if chain with a repeated condition
+						seen := map[string]bool{printNode(p, x.Cond): true}
+						for cur := x.Else; cur != nil; {
+							ei, ok := cur.(*ast.IfStmt)
+							if !ok {
+								break
+							}
+							c := printNode(p, ei.Cond)
+							if seen[c] {
+								add(ei.Pos(), "repeated-condition", c)
+							}
+							seen[c] = true
+							cur = ei.Else
+						}
+					case *ast.SwitchStmt:
+						seen := map[string]bool{}
+						for _, cs := range x.Body.List {
+							for _, e := range cs.(*ast.CaseClause).List {
+								c := printNode(p, e)
+								if seen[c] {
+									add(e.Pos(), "repeated-case", c)
+								}
+								seen[c] = true
+							}
+						}
+					}
+					return true
+				})
+			}
+		}
+		sort.Strings(lines)
+		for _, l := range lines {
+			fmt.Println(l)
+		}
+	}
+}
+
+func printNode(p *Prog, n ast.Node) string {
+	var b strings.Builder
+	_ = printer.Fprint(&b, p.Fset, n)
+	return b.String()
 }
